@@ -911,10 +911,31 @@ func c04(c *Ctx) {
 	if fn := c.Fn(ix, "R11", "(*recordingSpan).dedupeAttrs"); fn != nil {
 		g := ix.FG(fn)
 		fAttrs := lookupField(ix.Pkg, "recordingSpan", "attributes")
-		work := ix.Func("(*recordingSpan).dedupeAttrsFromRecord")
+		// the work: a call of a declared function that rebuilds the attribute slice (stores the field), wherever it lives now
+		rebuilds := func(d *FuncInfo) bool {
+			hit := false
+			if d != nil && d.Body() != nil {
+				inspectNoLit(d.Body(), func(m ast.Node) bool {
+					if assignRHS(m, func(e ast.Expr) bool { return isField(info, e, fAttrs) }) != nil {
+						hit = true
+					}
+					return true
+				})
+			}
+			return hit
+		}
+		var work *FuncInfo
 		isWork := func(n ast.Node) bool {
 			call, ok := n.(*ast.CallExpr)
-			return ok && work != nil && callToDecl(info, work)(call)
+			if !ok {
+				return false
+			}
+			d := ix.declByObj(callee(info, call))
+			if d == nil || d == fn || !rebuilds(d) {
+				return false
+			}
+			work = d
+			return true
 		}
 		through := toSet(g.Match(isWork))
 		if len(through) == 0 {
